@@ -72,13 +72,16 @@ func checkC08(p *Prog, r *Report) {
 	}
 	r.Func(FuncName(gf))
 	// --- identify the FFI table by role: the global looked up inside getFfi's callbacks
-	var ffiG *ssa.Global
+	// the walk may live in getFfi itself or in a helper it calls
 	var visit *ssa.Call
-	p.instrs(gf, func(b *ssa.BasicBlock, i int, in ssa.Instruction) {
-		if c, ok := in.(*ssa.Call); ok && calleeName(c) == "golang.org/x/tools/go/packages.Visit" {
-			visit = c
-		}
-	})
+	var wf *ssa.Function
+	for _, g := range append([]*ssa.Function{gf}, directCallees(p, gf)...) {
+		p.instrs(g, func(b *ssa.BasicBlock, i int, in ssa.Instruction) {
+			if c, ok := in.(*ssa.Call); ok && calleeName(c) == "golang.org/x/tools/go/packages.Visit" {
+				visit, wf = c, g
+			}
+		})
+	}
 	if visit == nil {
 		r.Fail("R08b", "getFfi walks the import graph", gf.Pos(), "no packages.Visit call", "")
 		return
@@ -120,67 +123,75 @@ func checkC08(p *Prog, r *Report) {
 		r.Fail("R08b", "getFfi callbacks", instrPos(visit), "pre/post callbacks are not function literals", "")
 		return
 	}
-	findLookup := func(f *ssa.Function) *ssa.Lookup {
-		var lk *ssa.Lookup
-		p.instrs(f, func(b *ssa.BasicBlock, i int, in ssa.Instruction) {
-			if l, ok := in.(*ssa.Lookup); ok && lookupGlobal(l) != nil {
-				lk = l
-			}
-		})
-		return lk
+	findTest := func(f *ssa.Function) *tableTest {
+		ts := p.tableTests(f)
+		if len(ts) == 0 {
+			return nil
+		}
+		return &ts[len(ts)-1]
 	}
-	preLk, postLk := findLookup(pre), findLookup(post)
-	if preLk != nil {
-		ffiG = lookupGlobal(preLk)
+	preT, postT := findTest(pre), findTest(post)
+	var ffiT *strTable
+	if preT != nil {
+		ffiT = preT.Table
 	}
 	// pre-visit shape
 	{
 		ok, why := true, ""
-		if preLk == nil || !preLk.CommaOk {
-			ok, why = false, "pre-visit does not test membership in a package-level table"
+		if preT == nil {
+			ok, why = false, "pre-visit does not test membership in a constant table of FFI packages"
 		} else {
-			_, fld, okf := fieldOf(preLk.Index)
+			_, fld, okf := fieldOf(preT.Key)
 			if !okf || fld != "PkgPath" {
-				ok, why = false, "pre-visit looks up "+sk(preLk.Index)+", expected the visited package's PkgPath"
+				ok, why = false, "pre-visit looks up "+sk(preT.Key)+", expected the visited package's PkgPath"
 			}
-			okKey := sk(preLk) + "#1"
-			rm := p.Rels(pre)
 			nRet := 0
-			p.instrs(pre, func(b *ssa.BasicBlock, i int, in ssa.Instruction) {
-				ret, isRet := in.(*ssa.Return)
-				if !isRet {
-					return
+			seenVals := map[bool]bool{}
+			ips, okp := p.ipathsKeeping(pre, keepTableFuncs(p, pre))
+			if !okp {
+				ok, why = false, "paths of the pre-visit callback could not be enumerated"
+			}
+			for _, ip := range ips {
+				if ip.Exit != "return" || len(ip.Ret) != 1 {
+					continue
 				}
 				nRet++
-				c, isC := ret.Results[0].(*ssa.Const)
-				if !isC {
-					ok, why = false, "pre-visit returns a computed value ("+sk(ret.Results[0])+"): whether the walk descends must depend only on the FFI lookup"
-					return
+				switch ip.Ret[0] {
+				case "true":
+					seenVals[true] = true
+					if !preT.holds(ip.Rels, false) {
+						ok, why = false, "pre-visit returns true (descend) without the fact that the package is not an FFI"
+					}
+				case "false":
+					seenVals[false] = true
+					if !preT.holds(ip.Rels, true) {
+						ok, why = false, "pre-visit returns false (prune) for a package that is not an FFI"
+					}
+				default:
+					// `return !isFfi`: the returned value is the negated membership itself
+					if ip.Ret[0] != "!"+preT.OkKey && ip.Ret[0] != "(!"+preT.OkKey+")" {
+						ok, why = false, "pre-visit returns a computed value ("+ip.Ret[0]+"): whether the walk descends must depend only on the FFI lookup"
+					} else {
+						seenVals[true], seenVals[false] = true, true
+					}
 				}
-				rs := p.RelsAt(rm, ret)
-				val := c.Value.String() == "true"
-				if val && !rs[okKey+" == false"] {
-					ok, why = false, "pre-visit returns true (descend) without the fact that the package is not an FFI"
-				}
-				if !val && !rs[okKey+" == true"] {
-					ok, why = false, "pre-visit returns false (prune) for a package that is not an FFI"
-				}
-			})
-			if nRet < 2 && ok {
+			}
+			if (!seenVals[true] || !seenVals[false]) && ok {
 				ok, why = false, "pre-visit never prunes or never descends"
 			}
+			_ = nRet
 		}
 		r.Check("R08b", "pre-visit prunes exactly at FFI packages", pre.Pos(), ok, why)
 	}
 	// post-visit shape
 	{
 		ok, why := true, ""
-		if postLk == nil || lookupGlobal(postLk) != ffiG {
+		if postT == nil || postT.Table != ffiT {
 			ok, why = false, "post-visit does not look up the same FFI table"
 		} else {
-			_, fld, okf := fieldOf(postLk.Index)
+			_, fld, okf := fieldOf(postT.Key)
 			if !okf || fld != "PkgPath" {
-				ok, why = false, "post-visit looks up "+sk(postLk.Index)
+				ok, why = false, "post-visit looks up "+sk(postT.Key)
 			}
 			rm := p.Rels(post)
 			nUpd := 0
@@ -188,12 +199,12 @@ func checkC08(p *Prog, r *Report) {
 				if mu, isMu := in.(*ssa.MapUpdate); isMu {
 					nUpd++
 					rs := p.RelsAt(rm, mu)
-					if !rs[sk(postLk)+"#1 == true"] {
+					if !postT.holds(rs, true) {
 						ok, why = false, "an FFI is recorded without the lookup having succeeded"
 					}
 					// recorded value is the looked-up FFI name
-					if ex, isEx := mu.Key.(*ssa.Extract); !isEx || ex.Tuple != ssa.Value(postLk) || ex.Index != 0 {
-						ok, why = false, "the recorded key is not the FFI name found in the table"
+					if sk(mu.Key) != postT.ValKey {
+						ok, why = false, "the recorded key is "+sk(mu.Key)+", not the FFI name found in the table"
 					}
 				}
 			})
@@ -203,101 +214,89 @@ func checkC08(p *Prog, r *Report) {
 		}
 		r.Check("R08b", "post-visit records exactly the FFI packages", post.Pos(), ok, why)
 	}
-	// refusal and result
+	// refusal and result, on the abstract paths of getFfi (the walker spliced in)
 	{
-		rm := p.Rels(gf)
-		var seenKey string
-		p.instrs(gf, func(b *ssa.BasicBlock, i int, in ssa.Instruction) {
-			if rg, ok := in.(*ssa.Range); ok {
-				seenKey = sk(rg.X)
+		ips, okp := p.ipaths(gf)
+		okBound, nNil, nRefuse, nNone := okp, 0, 0, 0
+		why := ""
+		for _, ip := range ips {
+			if ip.Exit == "panic" {
+				nRefuse++
+				continue
 			}
-		})
-		okRefuse, okNone, okOne := false, false, false
-		p.instrs(gf, func(b *ssa.BasicBlock, i int, in ssa.Instruction) {
-			ret, isRet := in.(*ssa.Return)
-			if !isRet || len(ret.Results) < 1 {
-				return
+			if ip.Exit != "return" || len(ip.Ret) < 1 {
+				continue
 			}
-			rs := p.RelsAt(rm, ret)
-			errIsNilConst := true // with a one-result signature there is no error to inspect
-			if len(ret.Results) == 2 {
-				errC, isC := ret.Results[1].(*ssa.Const)
-				errIsNilConst = isC && errC.Value == nil
+			if len(ip.Ret) == 2 && ip.Ret[1] != "nil" {
+				nRefuse++
+				continue
 			}
-			if rs["1 < len("+seenKey+")"] {
-				if len(ret.Results) == 2 && !errIsNilConst {
-					okRefuse = true
-				}
-				return
+			nNil++
+			if ip.Ret[0] == `"none"` {
+				nNone++
 			}
-			if s, ok := constString(ret.Results[0]); ok && s == "none" && errIsNilConst {
-				okNone = true
-			}
-			if ex, ok := ret.Results[0].(*ssa.Extract); ok && errIsNilConst {
-				if _, isNext := ex.Tuple.(*ssa.Next); isNext && rs["len("+seenKey+") <= 1"] {
-					okOne = true
+			bounded := false
+			for k := range ip.Rels {
+				if strings.HasPrefix(k, "len(") && (strings.HasSuffix(k, ") <= 1") || strings.HasSuffix(k, ") <= 0") || strings.HasSuffix(k, ") == 1") || strings.HasSuffix(k, ") == 0")) ||
+					strings.HasPrefix(k, "1 == len(") || strings.HasPrefix(k, "0 == len(") {
+					bounded = true
 				}
 			}
-		})
-		// a panic-based refusal is also a refusal for C08 (C07 decides whether it is a crash)
-		if !okRefuse {
+			if !bounded {
+				okBound = false
+				why = "a result is returned without the fact that at most one FFI was seen: " + ip.Trace
+			}
+		}
+		r.Check("R08b", "two different FFIs are refused", gf.Pos(), okBound && nRefuse > 0 && nNil > 0,
+			fmt.Sprintf("%s (refusing exits: %d, successful returns: %d)", why, nRefuse, nNil))
+		r.Check("R08b", "single FFI or none is returned", gf.Pos(), nNone > 0 && nNil > nNone, fmt.Sprintf("%d successful returns of which %d return \"none\"", nNil, nNone))
+		// walk starts at the package itself
+		okRoot := len(wf.Params) > 0 && sk(visit.Call.Args[0]) == "["+wf.Params[0].Name()+"]"
+		if okRoot && wf != gf {
+			okRoot = false
 			p.instrs(gf, func(b *ssa.BasicBlock, i int, in ssa.Instruction) {
-				if _, isP := in.(*ssa.Panic); isP {
-					rs := p.RelsAt(rm, in)
-					if rs["1 < len("+seenKey+")"] {
-						okRefuse = true
-					}
+				if c, ok := in.(*ssa.Call); ok && calleeOf(&c.Call) == wf && len(c.Call.Args) > 0 && c.Call.Args[0] == ssa.Value(gf.Params[0]) {
+					okRoot = true
 				}
 			})
 		}
-		r.Check("R08b", "two different FFIs are refused", gf.Pos(), okRefuse, "no refusing exit under the fact len(seen) > 1")
-		r.Check("R08b", "single FFI or none is returned", gf.Pos(), okNone && okOne, fmt.Sprintf("returns \"none\" when nothing was seen=%v; returns the single recorded FFI under len <= 1=%v", okNone, okOne))
-		// walk starts at the package itself
-		okRoot := sk(visit.Call.Args[0]) == "["+gf.Params[0].Name()+"]"
 		r.Check("R08b", "walk starts from the translated package", instrPos(visit), okRoot, "roots are "+sk(visit.Call.Args[0]))
 	}
 	// --- R08a tables
 	imp := p.Func(Mod, "Ctx.imports")
-	var builtinG *ssa.Global
+	var builtinT *strTable
 	if imp != nil {
-		p.instrs(imp, func(b *ssa.BasicBlock, i int, in ssa.Instruction) {
-			if l, ok := in.(*ssa.Lookup); ok && lookupGlobal(l) != nil {
-				builtinG = lookupGlobal(l)
-			}
-		})
+		for _, tt := range p.tableTests(imp) {
+			builtinT = tt.Table
+		}
 	}
-	if ffiG == nil || builtinG == nil {
-		r.Unknown("R08a", "tables", gf.Pos(), "cannot identify the FFI table (looked up in getFfi) and the builtin table (looked up in imports)")
+	if ffiT == nil || builtinT == nil {
+		r.Unknown("R08a", "tables", gf.Pos(), "cannot identify the FFI table (tested in getFfi's callbacks) and the builtin table (tested in imports)")
 	} else {
-		ffi, ok1 := globalMapLiteral(p, ffiG)
-		bi, ok2 := globalMapLiteral(p, builtinG)
-		if !ok1 || !ok2 {
-			r.Unknown("R08a", "tables", ffiG.Pos(), "tables are not constant map literals")
-		} else {
-			r.Table("ffi table "+ffiG.Name(), ffi)
-			r.Table("builtin imports "+builtinG.Name(), sortedKeys(bi))
-			for _, k := range sortedKeys(ffi) {
-				r.Check("R08a", "FFI package "+k+" is builtin", ffiG.Pos(), bi[k] == "true", "an FFI package that is not in the builtin table would also be emitted as a Require")
-				for _, pr := range [][2]string{{Mod + "/machine/", "github.com/goose-lang/primitive/"}, {"github.com/goose-lang/primitive/", Mod + "/machine/"}} {
-					if strings.HasPrefix(k, pr[0]) {
-						sib := pr[1] + strings.TrimPrefix(k, pr[0])
-						v, has := ffi[sib]
-						r.Check("R08a", "FFI sibling of "+k, ffiG.Pos(), has && v == ffi[k], fmt.Sprintf("%s ↦ %q but %s ↦ %q (present=%v): the two spellings of one FFI must agree", k, ffi[k], sib, v, has))
-					}
+		ffi, bi := ffiT.Rows, builtinT.Rows
+		r.Table("ffi table "+ffiT.Name, ffi)
+		r.Table("builtin imports "+builtinT.Name, sortedKeys(bi))
+		for _, k := range sortedKeys(ffi) {
+			r.Check("R08a", "FFI package "+k+" is builtin", ffiT.Pos, bi[k] == "true", "an FFI package that is not in the builtin table would also be emitted as a Require")
+			for _, pr := range [][2]string{{Mod + "/machine/", "github.com/goose-lang/primitive/"}, {"github.com/goose-lang/primitive/", Mod + "/machine/"}} {
+				if strings.HasPrefix(k, pr[0]) {
+					sib := pr[1] + strings.TrimPrefix(k, pr[0])
+					v, has := ffi[sib]
+					r.Check("R08a", "FFI sibling of "+k, ffiT.Pos, has && v == ffi[k], fmt.Sprintf("%s ↦ %q but %s ↦ %q (present=%v): the two spellings of one FFI must agree", k, ffi[k], sib, v, has))
 				}
 			}
-			// the FFI value names the package's last path element (disk ↦ disk, async_disk ↦ async_disk)
-			for _, k := range sortedKeys(ffi) {
-				if strings.HasPrefix(k, Mod+"/machine/") || strings.HasPrefix(k, "github.com/goose-lang/primitive/") {
-					base := k[strings.LastIndex(k, "/")+1:]
-					r.Check("R08a", "FFI name of "+k, ffiG.Pos(), ffi[k] == base, fmt.Sprintf("%s ↦ %q, expected %q", k, ffi[k], base))
-				}
+		}
+		// the FFI value names the package's last path element (disk ↦ disk, async_disk ↦ async_disk)
+		for _, k := range sortedKeys(ffi) {
+			if strings.HasPrefix(k, Mod+"/machine/") || strings.HasPrefix(k, "github.com/goose-lang/primitive/") {
+				base := k[strings.LastIndex(k, "/")+1:]
+				r.Check("R08a", "FFI name of "+k, ffiT.Pos, ffi[k] == base, fmt.Sprintf("%s ↦ %q, expected %q", k, ffi[k], base))
 			}
 		}
 	}
 	c08Header(p, r)
 	c08PathMapping(p, r)
-	c08Imports(p, r, imp, builtinG, gf)
+	c08Imports(p, r, imp, builtinT, gf)
 	// shared obligations decided by the C06 and C17 analyses
 	s6 := NewReport("C06", p)
 	c06Sorting(p, s6)
@@ -494,49 +493,34 @@ func resolveLocal(v ssa.Value) ssa.Value {
 }
 
 func c08PathMapping(p *Prog, r *Report) {
-	// the path mapping, found by role: the func(string) string of the printer whose result is a chain of
-	// strings.ReplaceAll over its parameter
-	var pm *ssa.Function
-	mapped := func(arg string) string { return "" }
-	var cands []*ssa.Function
-	if itp := p.Func(coqPkg, "ImportToPath"); itp != nil {
-		cands = p.region([]*ssa.Function{itp}) // the mapping is the one the output path is computed with
-	}
-	for _, g := range cands {
-		if g.Parent() != nil || g.Signature.Recv() != nil || g.Signature.Params().Len() != 1 || g.Signature.Results().Len() != 1 {
-			continue
-		}
-		if types.TypeString(g.Signature.Params().At(0).Type(), nil) != "string" || types.TypeString(g.Signature.Results().At(0).Type(), nil) != "string" {
-			continue
-		}
-		ips, ok := p.ipaths(g)
-		if !ok || len(ips) != 1 || len(ips[0].Ret) != 1 {
-			continue
-		}
-		k := ips[0].Ret[0]
-		reps := map[string]string{}
-		inner := k
-		for {
-			n, a, ok := parseCallKey(inner)
-			if !ok || n != "strings.ReplaceAll" || len(a) != 3 {
-				break
-			}
-			reps[strings.Trim(a[1], `"`)] = strings.Trim(a[2], `"`)
-			inner = a[0]
-		}
-		if len(reps) == 0 || inner != g.Params[0].Name() {
-			continue
-		}
-		pm = g
-		pn := g.Params[0].Name()
-		mapped = func(arg string) string { return substIdents(k, map[string]string{pn: arg}) }
-		r.Func(FuncName(pm))
-		r.Check("R08d", "pathToCoqPath maps '.' and '-' to '_'", pm.Pos(), reps["."] == "_" && reps["-"] == "_" && len(reps) == 2, fmt.Sprintf("replacements: %v", reps))
-	}
-	if pm == nil {
-		r.Anchor("R08d", "the path mapping of the printer (a strings.ReplaceAll chain over an import path)")
+	var mapped func(arg string) string
+	// the mapping is read off the output path itself: in the key of ImportToPath's result (helpers spliced in),
+	// the outermost chain of strings.ReplaceAll — or one application of a constant strings.Replacer — whose
+	// innermost operand is the import-path parameter
+	itp := p.Func(coqPkg, "ImportToPath")
+	if itp == nil || len(itp.Params) == 0 {
+		r.Anchor("R08d", "coq.ImportToPath")
 		return
 	}
+	pn := itp.Params[0].Name()
+	mapKey := ""
+	var reps map[string]string
+	if ips, ok := p.ipaths(itp); ok {
+		for _, ip := range ips {
+			if ip.Exit != "return" || len(ip.Ret) != 1 {
+				continue
+			}
+			if mk, rp, ok := findMappingIn(p, itp, ip.Ret[0], pn); ok {
+				mapKey, reps = mk, rp
+			}
+		}
+	}
+	if mapKey == "" {
+		r.Anchor("R08d", "the path mapping of the printer (a strings.ReplaceAll chain or a constant strings.Replacer applied to the import path)")
+		return
+	}
+	mapped = func(arg string) string { return substIdents(mapKey, map[string]string{pn: arg}) }
+	r.Check("R08d", "pathToCoqPath maps '.' and '-' to '_'", itp.Pos(), reps["."] == "_" && reps["-"] == "_" && len(reps) == 2, fmt.Sprintf("replacements: %v", reps))
 	// onlyMapped: every occurrence of src in the keys lies inside the mapping applied to src
 	onlyMapped := func(keys []string, src string) (n int, bad string) {
 		m := mapped(src)
@@ -614,19 +598,20 @@ func c08PathMapping(p *Prog, r *Report) {
 	}
 }
 
-func c08Imports(p *Prog, r *Report, imp *ssa.Function, builtinG *ssa.Global, gf *ssa.Function) {
+func c08Imports(p *Prog, r *Report, imp *ssa.Function, builtinT *strTable, gf *ssa.Function) {
 	if imp == nil {
 		r.Anchor("R08e", "goose.Ctx.imports")
 		return
 	}
 	r.Func(FuncName(imp))
 	rm := p.Rels(imp)
-	var lk *ssa.Lookup
-	p.instrs(imp, func(b *ssa.BasicBlock, i int, in ssa.Instruction) {
-		if l, ok := in.(*ssa.Lookup); ok && lookupGlobal(l) == builtinG && builtinG != nil {
-			lk = l
+	var lk *tableTest
+	for _, tt := range p.tableTests(imp) {
+		if tt.Table == builtinT && builtinT != nil {
+			t2 := tt
+			lk = &t2
 		}
-	})
+	}
 	nApp := 0
 	okGuard, okTrust := true, true
 	var why string
@@ -640,7 +625,7 @@ func c08Imports(p *Prog, r *Report, imp *ssa.Function, builtinG *ssa.Global, gf 
 		}
 		nApp++
 		rs := p.RelsAt(rm, c)
-		if lk == nil || !rs[sk(lk)+" == false"] {
+		if lk == nil || !lk.holds(rs, false) {
 			okGuard = false
 			why = fmt.Sprintf("an ImportDecl is appended without the fact that the path is not builtin; facts %v", relList(rs))
 		}
@@ -682,12 +667,12 @@ func c08Imports(p *Prog, r *Report, imp *ssa.Function, builtinG *ssa.Global, gf 
 			okTrust = false
 		}
 	})
-	r.Check("R08e", "ImportDecl exactly for non-builtin imports", imp.Pos(), okGuard && nApp >= 1 && lk != nil && !lk.CommaOk, why)
+	r.Check("R08e", "ImportDecl exactly for non-builtin imports", imp.Pos(), okGuard && nApp >= 1 && lk != nil, why)
 	r.Check("R08e", "trusted_ prefix selects Trusted", imp.Pos(), okTrust, "Trusted must be true exactly under the HasPrefix(pkgName, \"trusted_\") fact")
 	// key looked up is the unquoted import path of the spec
 	if lk != nil {
-		okKey := strings.Contains(sk(lk.Index), ".Path")
-		r.Check("R08e", "builtin test uses the spec's import path", instrPos(lk), okKey, "looked-up key is "+sk(lk.Index))
+		okKey := strings.Contains(sk(lk.Key), ".Path")
+		r.Check("R08e", "builtin test uses the spec's import path", instrPos(lk.In), okKey, "looked-up key is "+sk(lk.Key))
 	}
 	// renamed imports rejected: the ImportSpec.Name field is tested and leads to a reporter
 	rejected := false
@@ -707,8 +692,177 @@ func c08Imports(p *Prog, r *Report, imp *ssa.Function, builtinG *ssa.Global, gf 
 	// File.Write prints the imports once and the header once
 	if w := p.Func(coqPkg, "File.Write"); w != nil {
 		r.Func(FuncName(w))
-		n := len(blockOfCall(p, w, "("+coqPkg+".ImportDecls).PrintImports"))
-		r.Check("R08e", "file prints its imports once", w.Pos(), n == 1, fmt.Sprintf("%d PrintImports calls", n))
+		// on every returning abstract path (helpers such as a header writer spliced in) exactly once
+		pi := p.Func(coqPkg, "ImportDecls.PrintImports")
+		ips, okp := p.ipathsKeeping(w, map[*ssa.Function]bool{pi: true})
+		bad, nRet := "", 0
+		for _, ip := range ips {
+			if ip.Exit != "return" {
+				continue
+			}
+			nRet++
+			if n := len(ip.eventsOf("(" + coqPkg + ".ImportDecls).PrintImports")); n != 1 {
+				bad = fmt.Sprintf("%d PrintImports calls on the path %s", n, ip.Trace)
+			}
+		}
+		r.Check("R08e", "file prints its imports once", w.Pos(), okp && pi != nil && nRet > 0 && bad == "", bad)
 	}
 	var _ = sort.Strings
+}
+
+// keepTableFuncs: the table functions called in f stay opaque in its abstract paths (their answer is the fact).
+func keepTableFuncs(p *Prog, f *ssa.Function) map[*ssa.Function]bool {
+	keep := map[*ssa.Function]bool{}
+	for _, tt := range p.tableTests(f) {
+		if tt.Table.Fn != nil {
+			keep[tt.Table.Fn] = true
+		}
+	}
+	return keep
+}
+
+// directCallees: the functions of the same package that f calls directly.
+func directCallees(p *Prog, f *ssa.Function) []*ssa.Function {
+	var out []*ssa.Function
+	seen := map[*ssa.Function]bool{}
+	p.instrs(f, func(b *ssa.BasicBlock, i int, in ssa.Instruction) {
+		if c, ok := in.(ssa.CallInstruction); ok {
+			if g := c.Common().StaticCallee(); g != nil && g.Pkg == f.Pkg && g != f && !seen[g] && len(g.Blocks) > 0 {
+				seen[g] = true
+				out = append(out, g)
+			}
+		}
+	})
+	return out
+}
+
+// replacerPairs: g applies a package-level *strings.Replacer; the constant (old, new) pairs it was built with.
+func replacerPairs(p *Prog, g *ssa.Function) (map[string]string, bool) {
+	var glob *ssa.Global
+	p.instrs(g, func(b *ssa.BasicBlock, i int, in ssa.Instruction) {
+		if c, ok := in.(*ssa.Call); ok && calleeName(c) == "(*strings.Replacer).Replace" && len(c.Call.Args) > 0 {
+			glob = globalOfLoad(c.Call.Args[0])
+		}
+	})
+	if glob == nil || glob.Pkg == nil {
+		return nil, false
+	}
+	ini := glob.Pkg.Func("init")
+	if ini == nil {
+		return nil, false
+	}
+	pairs := map[string]string{}
+	n := 0
+	p.instrs(ini, func(b *ssa.BasicBlock, i int, in ssa.Instruction) {
+		st, ok := in.(*ssa.Store)
+		if !ok || st.Addr != ssa.Value(glob) {
+			return
+		}
+		n++
+		c, ok := st.Val.(*ssa.Call)
+		if !ok || calleeName(c) != "strings.NewReplacer" || len(c.Call.Args) != 1 {
+			n += 2
+			return
+		}
+		// the variadic argument: a slice of a local array with constant stores
+		elems := map[int64]string{}
+		if sl, ok := c.Call.Args[0].(*ssa.Slice); ok {
+			for _, rf := range refs(sl.X) {
+				if ia, ok := rf.(*ssa.IndexAddr); ok {
+					idx, _ := constInt(ia.Index)
+					for _, r2 := range refs(ia) {
+						if s2, ok := r2.(*ssa.Store); ok {
+							if cs, ok := constString(s2.Val); ok {
+								elems[idx] = cs
+							} else {
+								n += 2
+							}
+						}
+					}
+				}
+			}
+		}
+		for i := int64(0); i+1 < int64(len(elems)); i += 2 {
+			pairs[elems[i]] = elems[i+1]
+		}
+	})
+	for _, fn := range p.srcFuncs {
+		if fn == ini {
+			continue
+		}
+		p.instrs(fn, func(b *ssa.BasicBlock, i int, in ssa.Instruction) {
+			if st, ok := in.(*ssa.Store); ok && st.Addr == ssa.Value(glob) {
+				n += 2
+			}
+		})
+	}
+	return pairs, n == 1 && len(pairs) > 0
+}
+
+// findMappingIn: the outermost mapping expression over param inside key, with its replacement pairs.
+func findMappingIn(p *Prog, f *ssa.Function, key, param string) (string, map[string]string, bool) {
+	for _, head := range []string{"strings.ReplaceAll(", "*strings.Replacer.Replace("} {
+		for from := 0; ; {
+			i := strings.Index(key[from:], head)
+			if i < 0 {
+				break
+			}
+			i += from
+			from = i + 1
+			// balanced extent of the call
+			depth, end := 0, -1
+			inStr := false
+			for j := i; j < len(key); j++ {
+				c := key[j]
+				if inStr {
+					if c == '\\' {
+						j++
+					} else if c == '"' {
+						inStr = false
+					}
+					continue
+				}
+				switch c {
+				case '"':
+					inStr = true
+				case '(':
+					depth++
+				case ')':
+					depth--
+					if depth == 0 {
+						end = j
+					}
+				}
+				if end >= 0 {
+					break
+				}
+			}
+			if end < 0 {
+				continue
+			}
+			sub := key[i : end+1]
+			reps := map[string]string{}
+			inner := sub
+			for {
+				n, a, ok := parseCallKey(inner)
+				if !ok || n != "strings.ReplaceAll" || len(a) != 3 {
+					break
+				}
+				reps[strings.Trim(a[1], `"`)] = strings.Trim(a[2], `"`)
+				inner = a[0]
+			}
+			if len(reps) > 0 && inner == param {
+				return sub, reps, true
+			}
+			if n, a, ok := parseCallKey(sub); ok && n == "*strings.Replacer.Replace" && len(a) == 2 && a[1] == param {
+				// the replacer's pairs: from the function (in the region of f) that applies it
+				for _, g := range p.region([]*ssa.Function{f}) {
+					if pairs, ok := replacerPairs(p, g); ok {
+						return sub, pairs, true
+					}
+				}
+			}
+		}
+	}
+	return "", nil, false
 }
